@@ -20,7 +20,7 @@ def run(rep, tier, seed):
     for i in range(npk):
         stack, pkt, st, pd = gen_parsed(rnd, ALL_STACKS[i % len(ALL_STACKS)])
         for j in range(3):
-            kinds = KINDS if j else rnd.choice([('ns',), ('vs',), ('vsv',), ('lsb',), ('lsbv',), ('map',), ('comp', 'vs')])
+            kinds = KINDS if j else rnd.choice([('ns',), ('vs',), ('vsv',), ('lsb',), ('lsbv',), ('map',), ('comp', 'vs'), ('mapset', 'vs')])
             rule = gen_rule(rnd, pd, randbits(rnd, rnd.randint(1, 16)), kinds=kinds)
             d = rnd.choice([None, None, DI.UP, DI.DOWN])
             case_compress(b, pd, rule, d, klass='compress:' + stack)
@@ -34,6 +34,15 @@ def run(rep, tier, seed):
                 rule.field_descriptors[k_] = gen_rfd(rnd, f_, rnd.choice(['ns', 'vs', 'vsv', 'lsb', 'lsbv', 'map']), old_.direction)
                 case_compress(b, pd, rule, d, klass='compress-after-edit:' + stack)
                 case_compress(b, pd, rule, rnd.choice([DI.UP, DI.DOWN]), klass='compress-after-edit:' + stack)
+        if i % 3 == 1:
+            # the direction is the ARGUMENT of compress, not the direction recorded in the packet descriptor (they may differ):
+            # a rule with separate Up and Dw descriptors must be read for the argument
+            from p_c18 import dir_rule, KINDS as KINDS_PLAIN
+            d_arg = rnd.choice([DI.UP, DI.DOWN])
+            pd.direction = d_arg
+            r_dir, _ = dir_rule(rnd, pd, d_arg, kinds=KINDS_PLAIN)
+            pd.direction = rnd.choice([DI.UP, DI.DOWN, DI.BIDIRECTIONAL])
+            case_compress(b, pd, r_dir, d_arg, klass='compress-direction-argument:' + stack)
         case_compress(b, pd, no_compression_rule(randbits(rnd, rnd.randint(1, 16)), rnd.choice([L, R])), None, klass='no-compression:' + stack)
         if i % 4 == 0:
             # a rule of fragmentation nature handed to compress (no manager ever selects it): the bare rule id, whatever descriptors it carries
